@@ -1,6 +1,6 @@
-import DaskModel.Model.TreeReduce
+import DaskModel.Model.ArrayReduce
 /-! Lemmas about `partitionAll` and the generic K1 theorem `treeReduce_eq_fold`. -/
-namespace Dask.TreeReduce
+namespace Dask.ArrayReduce
 
 variable {α β γ : Type}
 
@@ -288,4 +288,4 @@ theorem hom_monoid {op : β → β → β} {e : β} (h : IsMonoid op e) :
   rw [this]
   exact hom_sfold op e h.assoc gs hne hall
 
-end Dask.TreeReduce
+end Dask.ArrayReduce
